@@ -538,6 +538,16 @@ def rule_shadow2(ctx: Ctx) -> RuleResult:
         ok = nm in bl
         rr.ob(BASE, "<module>", f"reserved name `{nm}`", "a key that sanitises to a parameter name of a generated method gets a suffix",
               DISCHARGED if ok else VIOLATED, "black-listed" if ok else f"`{nm}` is not in blacklist_words: {why}", 1)
+    # attribute lookup on a class falls back to its metaclass: `type` for dataclasses / attrs, ABCMeta for pydantic
+    import abc
+    for meta_cls in (type, abc.ABCMeta):
+        for nm in sorted(x for x in dir(meta_cls) if not x.startswith("_")):
+            rr.instances += 1
+            ok = nm in bl
+            rr.ob(BASE, "<module>", f"{meta_cls.__name__}.{nm}", "a key that sanitises to an attribute name of the metaclass gets a suffix "
+                  "(getattr(cls, name) finds it: dataclasses takes it for the field's default, pydantic refuses the field)",
+                  DISCHARGED if ok else VIOLATED, "black-listed" if ok else
+                  f"`{nm}` is not in blacklist_words: a sample with the key \"{nm}\" gives a class that does not load", 1)
     if checked == 0:
         rr.instances += 1
         rr.ob(BASE, "<module>", "framework base classes", "attribute names of the framework base classes are black-listed", ALLOWED,
